@@ -6,7 +6,13 @@ set -u
 PATCH=$(readlink -f "$1"); TIER="$2"; shift 2
 cd /repo || exit 2
 if [ -n "$(git status --porcelain -- src Cargo.toml)" ]; then echo "refusing: /repo has uncommitted changes"; exit 2; fi
-git apply "$PATCH" || { echo "patch does not apply"; exit 2; }
+if ! git apply "$PATCH" 2>/dev/null; then
+  # the repository moved on since the seed was written: try a 3-way merge, refuse on conflicts
+  git apply --3way "$PATCH" >/dev/null 2>&1 || true
+  if [ -z "$(git status --porcelain -- src Cargo.toml)" ] || grep -rq '^<<<<<<< ' src Cargo.toml; then git checkout -q HEAD -- . 2>/dev/null; git reset -q 2>/dev/null; echo "patch does not apply to this HEAD"; exit 2; fi
+  git reset -q 2>/dev/null
+  echo "(applied with --3way)"
+fi
 trap 'git -C /repo checkout -- . ; git -C /repo status --short | head -3' EXIT
 if [ "${SKIP_SUITE:-0}" != 1 ]; then
   echo "suite: $(cargo test --workspace --no-fail-fast --offline 2>&1 | grep -E '^test result' | head -1)"
